@@ -372,6 +372,9 @@ class C14(Family):
     # rewritten from StateSpace.sample, TransferFunction.sample, _c2d_matched (and SciPy's cont2discrete)
     extra_modules = extra_modules + ["CtrlVerif.Props.C14GenSample", "CtrlVerif.Props.C14GenTF",
                                      "CtrlVerif.Props.C14GenScipy"]
+    # source-text tie of the dispatchers and signatures (notes/NOTES-py2lean-disp.md): Generated/DispSig.lean,
+    # DispCall.lean are rewritten from sample_system / c2d and the def lines of both sample methods and pade
+    extra_modules = extra_modules + ["CtrlVerif.Props.C14GenDisp", "CtrlVerif.Props.C14GenDispRoute"]
 
     def pre_build(self):
         import os
@@ -380,7 +383,9 @@ class C14(Family):
         problems, self.gen_info = py2lean_arith.regenerate(repo, leanproj.LEAN, ("pade",))
         from core import py2lean_c2d
         problems2, self.gen_info_c2d = py2lean_c2d.regenerate(repo, leanproj.LEAN)
-        return problems + problems2
+        from core import py2lean_disp
+        problems3, self.gen_info_disp = py2lean_disp.regenerate(repo, leanproj.LEAN)
+        return problems + problems2 + problems3
     externals = [
         "numpy.tan (its value tan(w*Ts/2) is an argument of the model)",
         "scipy.linalg.expm (zero-order hold: the blocks of expm(Ts*[[A,B],[0,0]]) are an argument of "
